@@ -156,6 +156,23 @@ def gen_e2e(rng):
     """end-to-end class: the request is what the real WriteTCPRequest writes, the dial is faked, the response is written by the real
     WriteTCPResponse, then the relay; the client half (real client.TCP / tcpConn.Read on a QUIC stream) is served what the server half wrote"""
     c = gen_req(rng, False)
+
+    def healthy(side):
+        side["reads"] = [{"n": rng.choice([1, 2, 17, 100, 700, 3000, rng.randrange(1, 5000), 32768 if rng.random() < 0.3 else 9]),
+                          "err": "", "delay": _delay(rng)} for _ in range(rng.choice([1, 1, 2, 3, 4]))]
+        if rng.random() < 0.5:
+            side["reads"][-1]["err"] = "eof"
+        else:
+            side["reads"].append({"n": 0, "err": "eof", "delay": _delay(rng)})
+        side["writes"], side["logs"] = [], []
+    if rng.random() < 0.7:
+        healthy(c["down"])          # the target answers and finishes: the client half has something to read
+        if rng.random() < 0.6:
+            # ... and the client keeps its side open meanwhile (it finishes later or never), so the answer gets through
+            c["up"]["reads"] = [r for r in c["up"]["reads"] if r["err"] == ""][:2]
+            c["up"]["writes"], c["up"]["logs"] = [], []
+            if rng.random() < 0.5:
+                c["up"]["reads"].append({"n": rng.choice([0, 5]), "err": "eof", "delay": rng.randrange(3000, 9000)})
     up = c["up"]["reads"]
     if c["req"]["glue"] and (not up or up[0]["n"] == 0):
         up.insert(0, {"n": rng.choice([1, 5, 300]), "err": "", "delay": 0})
